@@ -163,6 +163,9 @@ def check_simd(ins):
             if i == 0:
                 if rn not in W and rn not in R:
                     res.append(('operand', rn, 'sat', 'first operand %s is in neither set' % rn))
+                # scalar moves between registers merge into the destination (movss/movsd xmm, xmm keep the upper lanes): it is read
+                elif rn not in R and merges_destination(ins):
+                    res.append(('read', rn, 'sat', 'destination %s keeps its upper lanes (scalar register-to-register move) but is not in the read set' % rn))
             else:
                 if rn not in R:
                     # x op x with a self-cancelling integer operation gives a constant: the register is not a dependency then
@@ -179,6 +182,14 @@ def check_simd(ins):
             if memw and not Wm:
                 res.append(('write', 'mem', 'sat', '%s stores to memory at [edi] but no memory cell is in the write set' % name))
     return res, (sorted(R), sorted(W))
+
+def merges_destination(ins):
+    """F3/F2 0F 10 /r and F3/F2 0F 11 /r with mod = 3: movss / movsd between xmm registers write the low lane only"""
+    from miasmx.arch.ia32_reg import x86_afs
+    if ins.m.name != 'mov#ups#': return False
+    pre = [p for p in (getattr(ins, 'prefix', []) or []) if p in (0xF3, 0xF2)]
+    if not pre: return False
+    return all(not a.get(x86_afs.ad) for a in ins.arg)
 
 # integer SIMD operations whose result does not depend on x when both operands are x (all zeroes / all ones); floating-point subtraction is
 # not among them (NaN, infinities)
@@ -222,7 +233,17 @@ def _work(job):
     sub = L[idx::nparts]
     out = {'n_core': 0, 'n_simd': 0, 'groups': {}, 'ok': 0, 'unsup': 0}
     prefixes = [(), (0x66,)] if tier == 'quick' else [(), (0x66,), (0x67,), (0x64,)]
-    for b, ins in x86enum.instances(sub, key=C04.c04_key, prefixes=prefixes, smart=True, full_sib=(tier != 'quick')):
+    def c08_key(ins):
+        # as C04's instance selection, and: whether two register operands are the same register (x op x has other dependencies than x op y)
+        regs = [tuple(sorted((k, v) for k, v in a.items() if type(k) == int)) for a in ins.arg if not a.get('ad')]
+        same = tuple(i < j and regs[i] == regs[j] and bool(regs[i]) for i in range(len(regs)) for j in range(len(regs)))
+        return C04.c04_key(ins) + (same,)
+    simd_leaves = [(p_, m_) for (p_, m_) in sub if m_.modifs.get('mmx') or '#' in m_.name]
+    import itertools
+    stream = itertools.chain(x86enum.instances(sub, key=c08_key, prefixes=prefixes, smart=True, full_sib=(tier != 'quick')),
+                             # the F3 / F2 forms of the MMX/SSE rows (mandatory prefixes select other instructions: movss, movsd, cvt...)
+                             x86enum.instances(simd_leaves, key=c08_key, prefixes=[(0xF3,), (0xF2,)], smart=True, full_sib=False))
+    for b, ins in stream:
         if isinstance(ins, Exception): continue
         if not C11.has_semantics(ins): continue
         ins.offset = C04.OFFSET
